@@ -397,6 +397,15 @@ type c36Query struct {
 	MinH  int  `json:"minh,omitempty"`
 	MaxH  int  `json:"maxh,omitempty"`
 	LastH int  `json:"lasth,omitempty"`
+	// session family F4 (zz_verif_c36_session_test.go): Extra > 0 = the projection is the 8 implicit
+	// columns followed by Extra aliases of _offset (Text carries the placeholder c36WideName(Extra));
+	// PadTo > 0 = spaces after "FROM t" so that the clauses behind it start at byte PadTo; Style
+	// "lowsp" = the text is sent in lower case, every blank doubled, with a leading tab. Sess = the
+	// accepted clause order without SCAN FULL (a LIMIT/TAIL/LAST keyword ends the WHERE clause).
+	Sess  bool   `json:"sess,omitempty"`
+	Extra int    `json:"extra,omitempty"`
+	PadTo int    `json:"padto,omitempty"`
+	Style string `json:"style,omitempty"`
 	t0    int64
 	exec  string
 }
@@ -418,6 +427,9 @@ func (q c36Query) bind(t0 int64) c36Query {
 	if q.MaxH != 0 {
 		q.TsMax = t0 + int64(q.MaxH)*c36HourMs
 		q.exec = strings.ReplaceAll(q.exec, c36RelName(q.MaxH), strconv.FormatInt(q.TsMax, 10))
+	}
+	if q.Sess {
+		q.exec = c36SessRender(q.exec, q.Extra, q.PadTo, q.Style)
 	}
 	return q
 }
@@ -504,10 +516,19 @@ func (q c36Query) clauses() (where []string, ts []string, order, lim, last strin
 	return
 }
 
+// head is "SELECT * FROM t", or, for the wide projections of the session family, the same with the
+// projection placeholder that bind expands.
+func (q c36Query) head() string {
+	if q.Extra > 0 {
+		return "SELECT " + c36WideName(q.Extra) + " FROM " + c36Topic
+	}
+	return "SELECT * FROM " + c36Topic
+}
+
 // natural: SELECT * FROM t WHERE <all filters joined by AND> ORDER BY .. LIMIT n LAST <n>h
 func (q c36Query) natural() string {
 	where, ts, order, lim, last := q.clauses()
-	parts := []string{"SELECT * FROM " + c36Topic}
+	parts := []string{q.head()}
 	if all := append(append([]string{}, where...), ts...); len(all) > 0 {
 		parts = append(parts, "WHERE "+strings.Join(all, " AND "))
 	}
@@ -527,14 +548,14 @@ func (q c36Query) natural() string {
 // _ts bounds after a clause-terminating keyword (SCAN FULL / LIMIT / TAIL / LAST).
 func (q c36Query) dialect() string {
 	where, ts, order, lim, last := q.clauses()
-	parts := []string{"SELECT * FROM " + c36Topic}
+	parts := []string{q.head()}
 	if order != "" {
 		parts = append(parts, order)
 	}
 	if len(where) > 0 {
 		parts = append(parts, "WHERE "+strings.Join(where, " AND "))
 	}
-	if last == "" {
+	if last == "" && !(q.Sess && lim != "") {
 		parts = append(parts, "SCAN FULL")
 	}
 	if lim != "" {
@@ -562,7 +583,7 @@ func c36Intent(q c36Query, text string) (accepted bool, same bool, err error) {
 	same = p.Type == kafsql.QuerySelect && p.Topic == c36Topic && p.JoinTopic == "" &&
 		eqI32(p.Partition, q.Part) && eqI64(p.OffsetMin, q.OffMin) && eqI64(p.OffsetMax, q.OffMax) &&
 		eqI64(p.TsMin, q.TsMin) && eqI64(p.TsMax, q.TsMax) && p.Last == wantLast && p.TimeWindow == "" && len(p.GroupBy) == 0 &&
-		len(p.Select) == 1 && p.Select[0].Kind == kafsql.SelectColumnStar
+		c36SelectIntent(q, p) && !(q.Sess && p.ScanFull)
 	wantOrder, wantDesc := "", false
 	switch q.Mode {
 	case "asc":
@@ -922,13 +943,17 @@ func c36Check(q c36Query, truth []c36Row, ans c36Answer, segs []discovery.Segmen
 	if ans.Err != "" {
 		return "error:" + ans.Err, &c36Finding{Key: "error-instead-of-rows", Detail: fmt.Sprintf("the server answered %q with error %q; %d records match", q.Text, ans.Err, len(match))}
 	}
-	if strings.Join(ans.Cols, ",") != strings.Join(c36Cols, ",") {
-		return "cols", &c36Finding{Key: "row-description-mismatch", Detail: fmt.Sprintf("columns %v", ans.Cols)}
+	wantCols := c36ColsOf(q)
+	if strings.Join(ans.Cols, ",") != strings.Join(wantCols, ",") {
+		return "cols", &c36Finding{Key: "row-description-mismatch", Detail: fmt.Sprintf("%q answered with %d columns %v, want %d", q.Text, len(ans.Cols), c36Short(ans.Cols), len(wantCols))}
 	}
 	// decode rows
 	var got []c36Row
 	seen := map[c36ID]bool{}
 	for _, row := range ans.Rows {
+		if len(row) != len(wantCols) {
+			return "badrow", &c36Finding{Key: "row-width-mismatch", Detail: fmt.Sprintf("%q: a row has %d values, want %d", q.Text, len(row), len(wantCols))}
+		}
 		p, err1 := strconv.Atoi(row[1])
 		off, err2 := strconv.ParseInt(row[2], 10, 64)
 		if err1 != nil || err2 != nil {
@@ -947,9 +972,16 @@ func c36Check(q c36Query, truth []c36Row, ans c36Answer, segs []discovery.Segmen
 		}
 		seen[id] = true
 		want := []string{c36Topic, strconv.Itoa(int(tr.P)), strconv.FormatInt(tr.Off, 10), c36FormatTS(tr.TS), c36Hex(tr.Key), c36Hex(tr.Val), "{}", tr.Seg}
+		for i := 0; i < q.Extra; i++ {
+			want = append(want, strconv.FormatInt(tr.Off, 10)) // _offset AS col_NNN_x..x
+		}
 		for i := range want {
 			if row[i] != want[i] {
-				return "content", &c36Finding{Key: "row-content-mismatch:" + c36Cols[i], Detail: fmt.Sprintf("%q: partition %d offset %d column %s = %q, want %q", q.Text, p, off, c36Cols[i], row[i], want[i])}
+				name := wantCols[i]
+				if i >= len(c36Cols) {
+					name = "alias-of-_offset"
+				}
+				return "content", &c36Finding{Key: "row-content-mismatch:" + name, Detail: fmt.Sprintf("%q: partition %d offset %d column %s = %q, want %q", q.Text, p, off, wantCols[i], row[i], want[i])}
 			}
 		}
 		if !q.match(tr) {
@@ -1094,6 +1126,10 @@ type c36Replay struct {
 	Variant string   `json:"variant"`
 	Path    string   `json:"path"` // memo | real
 	Query   c36Query `json:"query"`
+	// family F4: the queries executed one after the other on one server with the result cache on;
+	// Query is Session[At], the one whose answer is wrong
+	Session []c36Query `json:"session,omitempty"`
+	At      int        `json:"at,omitempty"`
 }
 
 type c36Found struct {
@@ -1185,12 +1221,13 @@ func c36ProbeIdx(queries []c36Query) []int {
 func TestVerifC36(t *testing.T) {
 	rep := vh.New(t, "C36")
 	defer rep.Finish()
-	rep.Rule = "case = (segment set, storage variant, query). Segment sets: partition 0 = every layout (records per segment) x inter-segment offset gaps x every assignment of the timestamp alphabet to its records, plus partition-1 variants (family F1); the same layouts with one segment not completed (no index object / no footer magic) (family F2). Family F3 (storage attributes): partition 0 = layouts of <=2 segments x every assignment of {T0-36h, T0-24h, T0-12h} to the records x per segment {time-index sidecar present, absent} x listing LastModified {T0-1h, absent (zero), T0-72h}; its queries all carry a lower time bound: {_ts >= T0-24h, _ts >= T0-24h and _ts <= T0-24h, LAST 18h, LAST 30h} x {no filter, _partition = 0, _offset >= 1, _offset <= 0} x the nine result modes; variants time-index and manifest-with-time-stats, plus plain and manifest when no segment has a sidecar. Variants: plain | time-index sidecars | manifest | manifest+time-index (as cmd/backfill builds them) | manifest carrying time statistics; sidecars and manifests are written by the real builders. Queries of F1/F2: product of partition filter x _offset >= x _offset <= x _ts >= x _ts <= x {all, limit 1, limit 2, tail 1, tail 2, order by _ts, order by _ts desc, order by _ts limit 2, order by _ts desc limit 1}, in natural SQL where the parser accepts it, else in the clause order it accepts. Outcome signature = variant + mode + (matching rows, returned rows) buckets + which statistics the pruned segments had. Non-trivial = at least one segment of the topic was pruned by statistics or at least one decoded record was filtered out."
+	rep.Rule = "case = (segment set, storage variant, query). Segment sets: partition 0 = every layout (records per segment) x inter-segment offset gaps x every assignment of the timestamp alphabet to its records, plus partition-1 variants (family F1); the same layouts with one segment not completed (no index object / no footer magic) (family F2). Family F3 (storage attributes): partition 0 = layouts of <=2 segments x every assignment of {T0-36h, T0-24h, T0-12h} to the records x per segment {time-index sidecar present, absent} x listing LastModified {T0-1h, absent (zero), T0-72h}; its queries all carry a lower time bound: {_ts >= T0-24h, _ts >= T0-24h and _ts <= T0-24h, LAST 18h, LAST 30h} x {no filter, _partition = 0, _offset >= 1, _offset <= 0} x the nine result modes; variants time-index and manifest-with-time-stats, plus plain and manifest when no segment has a sidecar. Variants: plain | time-index sidecars | manifest | manifest+time-index (as cmd/backfill builds them) | manifest carrying time statistics; sidecars and manifests are written by the real builders. Queries of F1/F2: product of partition filter x _offset >= x _offset <= x _ts >= x _ts <= x {all, limit 1, limit 2, tail 1, tail 2, order by _ts, order by _ts desc, order by _ts limit 2, order by _ts desc limit 1}, in natural SQL where the parser accepts it, else in the clause order it accepts. Outcome signature = variant + mode + (matching rows, returned rows) buckets + which statistics the pruned segments had. Non-trivial = at least one segment of the topic was pruned by statistics or at least one decoded record was filtered out. Family F4 (sessions): case = (segment set, variant, ordered pair / triple of texts of the alphabet head x tail) executed one after the other on one fresh server with the production-default result cache, each answer judged for its own query; signature = variant + position + heads of this and the previous text + same/other tail + whether the server listed segments for it + oracle signature; non-trivial = a later answer of the session was given without consulting the lister (served from the result cache)."
 	rep.Assumptions = []string{
 		"segments are well formed: the file name carries the offset of the first record, offsets grow within and across the segments of a partition (gaps allowed), timestamps are arbitrary",
 		"a segment is completed iff its .kfs ends in the footer magic and its .index object exists; records of other segments are not part of the topic's rows",
 		"LIMIT n without ORDER BY: any n distinct matching rows; TAIL n: n distinct matching rows such that no excluded row has a higher offset than an included row of the same partition; ORDER BY _ts [LIMIT n]: sorted, and no excluded row strictly before an included one (ties are unordered)",
-		"LIMIT 0, inverted time windows and TAIL with ORDER BY are excluded; all caches are off (TTL 0)",
+		"LIMIT 0, inverted time windows and TAIL with ORDER BY are excluded; all caches are off (TTL 0) in families F1-F3; family F4 runs with the result cache a deployment gets by default (config.Load defaults), discovery cache and manifest TTL off",
+		"family F4: the bucket does not change during a session, so an answer legitimately served from the result cache equals direct filtering; no model of the cache key or of cacheability is used",
 		"LAST <n>h (family F3 only) selects the records with now-n h <= _ts <= now; every generated timestamp, statistic and LastModified is at least 6 h away from both ends (relative to the instant T0 at which the run started) and the run aborts as HARNESS-ERROR if it lasts more than 1 h, so the verdict does not depend on when the server reads its clock",
 		"LastModified of a segment object is unrelated to the timestamps of its records (producer-assigned): a listing may report it earlier than, later than, or not at all relative to any record timestamp",
 		"a query text the parser rejects is not a violation of this property (counted in bounds.natural_sql_rejected)",
@@ -1217,6 +1254,10 @@ func TestVerifC36(t *testing.T) {
 			t.Fatalf("HARNESS-ERROR %v", err)
 		}
 		t0 := time.Now().UTC().Truncate(time.Second).UnixMilli()
+		if len(replay.Session) > 0 {
+			c36ReplaySession(t, rep, env, replay, t0)
+			return
+		}
 		bset := replay.Set.bind(t0)
 		bq := replay.Query.bind(t0)
 		if err := env.prepare(bset, replay.Variant); err != nil {
@@ -1296,6 +1337,20 @@ func TestVerifC36(t *testing.T) {
 	counts := map[string]int64{}
 	var firstErr error
 	cutAt := -1
+	// family F4 first: sessions on one server with the production-default result cache
+	if err := c36Sessions(t, rep, t0, deadline, func(rank [2]int, f c36Finding, rp c36Replay) {
+		mu.Lock()
+		counts[f.Key]++
+		if cur, ok := best[f.Key]; !ok || rank[0] < cur.rank[0] || (rank[0] == cur.rank[0] && rank[1] < cur.rank[1]) {
+			best[f.Key] = c36Found{rank: rank, f: f, replay: rp}
+		}
+		mu.Unlock()
+	}); err != nil {
+		t.Fatalf("HARNESS-ERROR %v", err)
+	}
+	if time.Since(wallStart) > time.Hour {
+		t.Fatalf("HARNESS-ERROR the run lasted more than 1 h: the LAST windows are only judged within 1 h of the reference instant")
+	}
 	next := make(chan int, len(sets))
 	for i := range sets {
 		if i%shardN == shardI {
